@@ -330,3 +330,35 @@ def c03(tier, seed, work):
 
 
 CHECKS.update({"C03": c03})
+
+
+def c18(tier, seed, work):
+    a, i = suite_for(seed, 6)
+    mcs = [F.model_check("MCConsole", "MC_Console_sess_quick.cfg" if tier == "quick" else "MC_Console_sess.cfg", work),
+           F.model_check("MCConsole", "MC_Console_nosess_quick.cfg" if tier == "quick" else "MC_Console_nosess.cfg", work)]
+    depth = 2 if tier == "quick" else 3
+    fams = [F.console_metrics_family(work, "c18-sess", True, "CmdsAR", 2, depth, "KindsRetry", a, i),
+            F.console_metrics_family(work, "c18-nosess", False, "CmdsAB", 2, depth, "KindsRetryNS", 1, 1, codes="CodesAll")]
+    hs = [F.handshake_family(work, "c18-lifecycle", "lifecycle", tier, seed, metrics=True)]
+    fams += hs
+    require_accepted(fams)
+    viols = []
+    for f in fams:
+        viols += flatten(f)
+    attach_scripts(viols)
+    n = sum(f["scripts"] for f in fams)
+    cov = {"states": sum(m["distinct"] for m in mcs), "transitions": sum(m["generated"] for m in mcs), "model_checking": mcs,
+           "traces_validated_against_impl": n, "events_validated": sum(f["events"] for f in fams),
+           "evaluations": n, "distinct_nontrivial": n,
+           "rule": "Console.tla carries the exported counters and an independent ghost count (invariant C18_Metrics, exhaustive). "
+                   "On the real library the Prometheus registry is gathered after every call (one connection at a time per "
+                   "process); MetricsLaw.tla maps what TLC observed in the call (name, transmissions, valid responses by "
+                   "completion code, error) to the exact expected change of every bmc_* counter and gauge, and TLC compares "
+                   "all keys. Families: exhaustive command outcome sequences in and out of a session, and session/connection "
+                   "lifecycle histories (opens that succeed or fail, closes that succeed, fail or are lost) up to 60 operations.",
+           "families": fam_cov(fams), "samples": [sample_script(f) for f in fams[:3]]}
+    return {"level": "model_checking", "coverage": cov, "viols": viols, "assumptions": COMMON_ASSUME + [
+        "connection dial failures (unresolvable address) are exercised by the UDP driver of C13, not here"]}
+
+
+CHECKS.update({"C18": c18})
